@@ -1199,6 +1199,12 @@ func runHist(t *testing.T, seed int64, n int, out *Out) {
 				if tx := h.genTx(); tx != nil {
 					txs = append(txs, tx)
 				}
+				// order-focused histories: the price may move BETWEEN two transactions of a block (a feed after the first one): whatever was
+				// evaluated before the move says nothing about what is evaluated after it
+				if i == 0 && k >= 2 && outage == 0 && strings.HasPrefix(h.focus, "ts.") && h.r.Intn(2) == 0 {
+					txs = append(txs, h.priceTx())
+					stats["midBlockFeed"]++
+				}
 			}
 			h.stickyPool = 0
 			if h.r.Intn(25) == 0 && outage == 0 {
